@@ -29,7 +29,7 @@ SPEC = {
     "pins": ["Schedule"],
     "harness": "harness.c15",
     "technique": "Lean 4 theorems over a declarative RFC 5545 subset (calendar round trips, sorted/sound/complete occurrence enumeration, rruleset algebra, keyword wiring) + pins of the keyword wiring regenerated from the AST + three-way differential (plugin / Lean model / dateutil built directly from the keywords)",
-    "level_text": "Machine-checked proofs about the model of the recurrence (proleptic Gregorian calendar round trips; occurrences strictly increasing, sound and complete w.r.t. the declarative `occursDay`/time-set predicate for every rule and bound; count = prefix; include/exclude = sorted de-duplicated set algebra; every keyword reaches the same-named rrule argument except the recorded mismatch), tied to Schedule.py by a pinned wiring table with bridging lemmas and by differential runs of CalendarRule and end-to-end recipes against the model and against an independent dateutil construction.",
+    "level_text": "Machine-checked proofs about the model of the recurrence (proleptic Gregorian calendar round trips; occurrences strictly increasing, sound and complete w.r.t. the declarative `occursDay`/time-set predicate for every rule and bound; count = prefix; include/exclude = sorted de-duplicated set algebra; every keyword reaches the same-named rrule argument, normalised from the same-named parameter), tied to Schedule.py by a pinned wiring table with bridging lemmas and by differential runs of CalendarRule and end-to-end recipes against the model and against an independent dateutil construction.",
     "level_note": "Trusted: Lean kernel; py2lean; the harness; dateutil as the recurrence engine (its contract is exercised, not verified); PyYAML/dateutil.parser for reading dates. bysetpos/byeaster/cache: only gate and wiring. DST-bearing zones are outside the model (fixed offsets).",
     "assumptions": [
         "dateutil.rrule implements the RFC 5545 subset as modelled (exercised on every run: model(intended) vs direct construction)",
@@ -288,7 +288,7 @@ def run_recipe_case(case):
 
 def build_direct(s, variant=frozenset()):
     """dateutil objects straight from the keywords.  `variant` switches on reproductions of known
-    defects: 'weekno' (byweekno := bysecond), 'utc' (date-valued until/include/exclude at UTC,
+    (or repaired) defects: 'weekno' (byweekno := bysecond; D13, repaired — kept as a regression probe), 'utc' (date-valued until/include/exclude at UTC,
     datetime-string until re-labelled UTC), 'untiltime' (datetime-object until keeps only its date)."""
     from dateutil import rrule as R
 
@@ -416,8 +416,8 @@ def quirks_present(s):
     """which known-defect reproductions could matter for this schedule (to bound the variant search)"""
     q = set()
     p = s["p"]
-    if p.get("bysecond") is not None:
-        q.add("weekno")
+    if p.get("bysecond") is not None or p.get("byweekno") is not None:
+        q.add("weekno")  # regression probe for the repaired D13 (fixed by 5a30154)
     u = p.get("until")
     if u is not None:
         if u["k"] == "dtobj":
@@ -555,8 +555,23 @@ def _worker(case):
         return {"crash": traceback.format_exc()[-1500:]}
 
 
+def _preload():
+    """Import everything the workers need *before* forking and before any alarm is armed: an
+    alarm that fires in the middle of a first import leaves half-initialised modules behind."""
+    import dateutil.parser  # noqa: F401
+    import dateutil.rrule  # noqa: F401
+    import snowfakery.api  # noqa: F401
+    import snowfakery.data_generator  # noqa: F401
+    import snowfakery.data_generator_runtime  # noqa: F401
+    import snowfakery.output_streams  # noqa: F401
+    import snowfakery.standard_plugins.Schedule  # noqa: F401
+    import yaml  # noqa: F401
+
+
 def evaluate_all(cases):
     import multiprocessing as mp
+
+    _preload()
 
     n = min(12, max(1, (os.cpu_count() or 2) - 2))
     if len(cases) < 4:
@@ -749,6 +764,10 @@ def gen_params(rng, sub_ok=True, clean=False):
             p["byminute"] = some(rng, [0, 10, 15, 30, 45, 59], 3)
         if rng.random() < (0.0 if clean else 0.18):
             p["bysecond"] = some(rng, [0, 1, 2, 3, 7, 10, 30, 59, 9, 26, 52, 53], 3)
+    if rng.random() < 0.05:
+        # undocumented keyword: a non-empty value needs an opt-in no recipe can give (error); an
+        # empty list passes the gate and reaches rrule as "supplied" (RFC defaults off)
+        p["byweekno"] = [] if (p["lf"] == 2 and rng.random() < 0.6) else some(rng, [1, 10, 30, 52, -1], 2)
     if rng.random() < 0.45:
         p["count"] = rng.choice([1, 2, 3, 5, 8, 12, 30])
     if rng.random() < 0.5:
@@ -846,6 +865,8 @@ def gen_case(rng, kind):
     mode = rng.choice(["next", "next", "for_each"])
     s = gen_set(rng, clean=clean, single=True)
     s["p"]["lf"] = rng.choice([0, 1])
+    if s["p"].get("byweekno") == []:
+        del s["p"]["byweekno"]
     fix_lf(s)
     if mode == "for_each":
         force_bounded(rng, s)
@@ -855,6 +876,8 @@ def gen_case(rng, kind):
 def fix_lf(s):
     if s["p"].get("lf") == 2:
         s["p"]["lf"] = 1
+    if s["p"].get("byweekno") == []:
+        del s["p"]["byweekno"]  # an empty list cannot be written in a recipe
     for key in ("include", "exclude"):
         for it in s.get(key) or []:
             if it["k"] == "set":
